@@ -1,7 +1,7 @@
 (* C19 / C10: the model of learn() used by the C19 correspondence (C19Check.learn_records) emits exactly one record per
    iteration, in order, and the j-th record carries the cumulative number of environment steps j * N * T. *)
 From Coq Require Import List Arith ZArith QArith Bool Lia.
-From Lerax Require Import Common Env Tab OnPolicy OnPolicyProofs Logging C19Check.
+From Lerax Require Import Common Env Tab OnPolicy OnPolicyProofs Logging LoggingProofs C19Check.
 Import ListNotations.
 
 Section LearnFacts.
@@ -56,3 +56,32 @@ Section LearnFacts.
     - unfold all_steps. apply Forall_forall. intros x Hx. apply in_map_iff in Hx as (i & <- & _). reflexivity.
   Qed.
 End LearnFacts.
+
+(* ---- any learner, warm-up included (C19Check.hist_records): record j reports N * (L + j*T) environment steps, in order,
+        and its statistics are those of each environment's own first L + j*T steps ---- *)
+Lemma l_run_step alpha h : l_step (l_run alpha h) = Z.of_nat (length h).
+Proof.
+  destruct (next_spec alpha h 0 false) as (_ & _ & Hs). cbv zeta in Hs. cbn [l_next l_step] in Hs. lia.
+Qed.
+
+Theorem hist_records_steps alpha T L iters (hist : list (list (Q * bool))) :
+  Forall (fun h => (L + iters * T <= length h)%nat) hist ->
+  map (fun r => fst (fst r)) (hist_records alpha T L iters hist) =
+  map (fun j => Z.of_nat (length hist * (L + j * T))) (seq 1 iters).
+Proof.
+  intros Hlen. unfold hist_records. rewrite map_map. apply map_ext_in. intros j Hj.
+  apply in_seq in Hj. unfold iter_record. cbn [fst].
+  induction hist as [|h tl IH]; [reflexivity|].
+  apply Forall_cons_iff in Hlen as [Hh Htl]. cbn [map fold_right length].
+  rewrite IH by assumption. rewrite l_run_step, firstn_length_le by nia. lia.
+Qed.
+
+Theorem hist_records_per_env alpha T L iters (hist : list (list (Q * bool))) j :
+  In j (seq 1 iters) ->
+  exists r, nth_error (hist_records alpha T L iters hist) (j - 1) = Some r /\
+            r = iter_record (map (fun h => l_run alpha (firstn (L + j * T) h)) hist).
+Proof.
+  intros Hj. apply in_seq in Hj. unfold hist_records. eexists. split; [|reflexivity].
+  rewrite nth_error_map. rewrite nth_error_nth' with (d := 0%nat) by (rewrite seq_length; lia).
+  rewrite seq_nth by lia. replace (1 + (j - 1))%nat with j by lia. reflexivity.
+Qed.
